@@ -116,8 +116,32 @@ def floor_active(m_prev, m_next, X):
     """The property's precondition for ascent: no variance floor and no count floor active in this step."""
     var = np.asarray(m_next.variances, dtype=float)
     fl = np.broadcast_to(np.asarray(m_next.variance_thresholds, dtype=float), var.shape)
-    if np.any(var <= fl * (1 + 1e-12)):
-        return True
+    at_floor = var <= fl * (1 + 1e-12)
+    if np.any(at_floor):
+        # a floor is ACTIVE when the update itself asked for a variance at or below it.  A variance the code put on its
+        # floor although the responsibility-weighted second moment about the component's (new) mean is well above the
+        # floor is not an active floor but a wrong moment (round eight: squares taken in a narrow storage type came
+        # out negative and were clamped): then the precondition holds and ascent is demanded.  The moment is computed
+        # here in float64 from the previous machine's visible parameters (own log-sum-exp, nothing of the library).
+        w0, mu0, v0 = params(m_prev)
+        if np.array_equal(var, v0):
+            return True                     # variances not updated in this step: the floor was met before
+        Xf = np.asarray(X, dtype=np.float64)
+        comp = np.array([np.log(w0[c]) - 0.5 * (np.sum((Xf - mu0[c]) ** 2 / v0[c], axis=1) + np.sum(np.log(2 * np.pi * v0[c])))
+                         for c in range(len(w0))])
+        top = comp.max(axis=0)
+        post = np.exp(comp - (top + np.log(np.exp(comp - top).sum(axis=0))))
+        mu1 = np.asarray(m_next.means, dtype=float)
+        for c in range(len(w0)):
+            nc = post[c].sum()
+            if not nc > 1e-9:
+                return True
+            second = (post[c][:, None] * (Xf - mu1[c]) ** 2).sum(axis=0) / nc
+            scale = (post[c][:, None] * Xf ** 2).sum(axis=0) / nc
+            if np.any(at_floor[c] & (second <= fl[c] * (1 + 1e-3) + 1e-9 * scale)):
+                return True
+        st = m_prev.acc_stats(X)
+        return bool(np.any(np.asarray(st.n) < max(float(m_prev.mean_var_update_threshold), 1e-12) * 10))
     st = m_prev.acc_stats(X)
     return bool(np.any(np.asarray(st.n) < max(float(m_prev.mean_var_update_threshold), 1e-12) * 10))
 
